@@ -56,6 +56,106 @@ theorem getu4_eq (s : Bytes) (n : Nat) (r : Bytes) (h : getu4 s = some (n, r)) :
       omega
   · cases h
 
+theorem readUnicode_eq (rest2 d raw r : Bytes) (h : readUnicode rest2 = some (d, raw, r)) :
+    rest2 = raw ++ r := by
+  unfold readUnicode at h
+  cases hh4 : hex4 rest2 with
+  | none => simp [hh4] at h
+  | some x =>
+    obtain ⟨rr, rest3⟩ := x
+    obtain ⟨e4, _⟩ := hex4_eq rest2 rr rest3 hh4
+    simp only [hh4] at h
+    split at h
+    · next dec rest4 hpair =>
+      have hg : ∃ rr1, getu4 rest3 = some (rr1, rest4) := by
+        split at hpair
+        · cases hg' : getu4 rest3 with
+          | none => simp [hg'] at hpair
+          | some y =>
+            obtain ⟨rr1, r4⟩ := y
+            simp only [hg'] at hpair
+            split at hpair
+            · simp only [Option.some.injEq, Prod.mk.injEq] at hpair
+              exact ⟨rr1, by rw [hpair.2]⟩
+            · cases hpair
+        · cases hpair
+      obtain ⟨rr1, hg'⟩ := hg
+      obtain ⟨e6, _⟩ := getu4_eq rest3 rr1 rest4 hg'
+      simp only [Option.some.injEq, Prod.mk.injEq] at h
+      obtain ⟨_, rfl, rfl⟩ := h
+      rw [List.append_assoc, ← e6, ← e4]
+    · simp only [Option.some.injEq, Prod.mk.injEq] at h
+      obtain ⟨_, rfl, rfl⟩ := h
+      exact e4
+
+theorem stringStep_done (s rest : Bytes) (h : stringStep s = .done rest) : s = 0x22 :: rest := by
+  unfold stringStep at h
+  cases s with
+  | nil => cases h
+  | cons c t =>
+    simp only [] at h
+    split at h
+    · next hc => cases h; rw [hc]
+    · split at h
+      · cases t with
+        | nil => cases h
+        | cons e t2 =>
+          simp only [] at h
+          split at h
+          · cases h
+          · split at h
+            · split at h <;> cases h
+            · cases h
+      · split at h
+        · cases h
+        · split at h
+          · cases h
+          · split at h <;> cases h
+
+theorem stringStep_chunk (s d raw rest : Bytes) (h : stringStep s = .chunk d raw rest) :
+    s = raw ++ rest ∧ raw ≠ [] := by
+  unfold stringStep at h
+  cases s with
+  | nil => cases h
+  | cons c t =>
+    simp only [] at h
+    split at h
+    · cases h
+    · split at h
+      · cases t with
+        | nil => cases h
+        | cons e t2 =>
+          simp only [] at h
+          split at h
+          · cases h; exact ⟨rfl, by simp⟩
+          · split at h
+            · split at h
+              · next d' raw' r' hu =>
+                cases h
+                have := readUnicode_eq t2 _ _ _ hu
+                exact ⟨by rw [this]; rfl, by simp⟩
+              · cases h
+            · cases h
+      · split at h
+        · cases h
+        · split at h
+          · cases h; exact ⟨rfl, by simp⟩
+          · split at h
+            · cases h; exact ⟨rfl, by simp⟩
+            · next hne =>
+              cases h
+              refine ⟨(List.take_append_drop _ _).symm, ?_⟩
+              intro hnil
+              -- `decodeRune` of a non-empty input never has size 0
+              have : (decodeRune (c :: t)).2 ≠ 0 := by
+                unfold decodeRune
+                simp only []
+                repeat' split
+                all_goals simp
+              cases hn : (decodeRune (c :: t)).2 with
+              | zero => exact this hn
+              | succ n => rw [hn] at hnil; simp at hnil
+
 /-- the raw literal `readString` returns is exactly the input it consumed -/
 theorem readString_eq : ∀ (F : Nat) (s d raw r : Bytes), readString F s = some (d, raw, r) →
     s = raw ++ r ∧ raw ≠ [] := by
@@ -64,117 +164,205 @@ theorem readString_eq : ∀ (F : Nat) (s d raw r : Bytes), readString F s = some
   | zero => intro s d raw r h; simp [readString] at h
   | succ F ih =>
     intro s d raw r h
-    cases s with
-    | nil => simp [readString] at h
-    | cons c rest =>
-      simp only [readString] at h
-      split at h
-      · -- closing quote
-        simp only [Option.some.injEq, Prod.mk.injEq] at h
+    simp only [readString] at h
+    cases hs : stringStep s with
+    | fail => simp [hs] at h
+    | done rest =>
+      simp only [hs, Option.some.injEq, Prod.mk.injEq] at h
+      obtain ⟨_, rfl, rfl⟩ := h
+      exact ⟨stringStep_done s rest hs, by simp⟩
+    | chunk d0 raw0 rest =>
+      simp only [hs] at h
+      cases hr : readString F rest with
+      | none => simp [hr] at h
+      | some x =>
+        obtain ⟨d', raw', r'⟩ := x
+        simp only [hr, Option.some.injEq, Prod.mk.injEq] at h
         obtain ⟨_, rfl, rfl⟩ := h
-        simp
+        obtain ⟨h1, h2⟩ := stringStep_chunk s d0 raw0 rest hs
+        obtain ⟨h3, _⟩ := ih rest d' raw' r' hr
+        exact ⟨by rw [h1, h3, List.append_assoc], by simp [h2]⟩
+
+/-! ## numbers and literals -/
+
+theorem scanSign_eq (s : Bytes) : s = (scanSign s).1 ++ (scanSign s).2 := by
+  unfold scanSign; split <;> simp
+
+theorem scanInt_eq (s a r : Bytes) (h : scanInt s = some (a, r)) : s = a ++ r ∧ a ≠ [] := by
+  unfold scanInt at h
+  cases s with
+  | nil => cases h
+  | cons c t =>
+    simp only [] at h
+    split at h
+    · cases h; exact ⟨rfl, by simp⟩
+    · split at h
+      · cases h
+        exact ⟨by rw [List.cons_append, ← spanDigits_eq], by simp⟩
+      · cases h
+
+theorem scanFrac_eq (s a r : Bytes) (h : scanFrac s = some (a, r)) : s = a ++ r := by
+  unfold scanFrac at h
+  split at h
+  · next r2 =>
+    simp only [] at h
+    split at h
+    · cases h
+    · cases h; rw [List.cons_append, ← spanDigits_eq]
+  · cases h; rfl
+
+theorem scanExpSign_eq (s : Bytes) : s = (scanExpSign s).1 ++ (scanExpSign s).2 := by
+  unfold scanExpSign; split <;> simp
+
+theorem scanExp_eq (s a r : Bytes) (h : scanExp s = some (a, r)) : s = a ++ r := by
+  unfold scanExp at h
+  split at h
+  · cases h; rfl
+  · next e r3 =>
+    split at h
+    · simp only [] at h
+      split at h
+      · cases h
+      · cases h
+        rw [List.cons_append, List.append_assoc, ← spanDigits_eq, ← scanExpSign_eq]
+    · cases h; rfl
+
+theorem scanNumber_eq (s t r : Bytes) (h : scanNumber s = some (t, r)) : s = t ++ r ∧ t ≠ [] := by
+  unfold scanNumber at h
+  simp only [] at h
+  cases hi : scanInt (scanSign s).2 with
+  | none => simp [hi] at h
+  | some x =>
+    obtain ⟨ip, a1⟩ := x
+    simp only [hi] at h
+    cases hf : scanFrac a1 with
+    | none => simp [hf] at h
+    | some y =>
+      obtain ⟨fp, a2⟩ := y
+      simp only [hf] at h
+      cases he : scanExp a2 with
+      | none => simp [he] at h
+      | some z =>
+        obtain ⟨ep, a3⟩ := z
+        simp only [he, Option.some.injEq, Prod.mk.injEq] at h
+        obtain ⟨rfl, rfl⟩ := h
+        obtain ⟨e1, hne⟩ := scanInt_eq _ _ _ hi
+        have e2 := scanFrac_eq _ _ _ hf
+        have e3 := scanExp_eq _ _ _ he
+        refine ⟨?_, ?_⟩
+        · conv => lhs; rw [scanSign_eq s, e1, e2, e3]
+          simp [List.append_assoc]
+        · intro hnil
+          simp only [List.append_eq_nil_iff] at hnil
+          exact hne hnil.1.1.2
+
+/-- a scalar token consumes at least one byte -/
+theorem scanScalar_length (s : Bytes) (t : Tok) (r : Bytes) (h : scanScalar s = some (t, r)) :
+    r.length < s.length := by
+  unfold scanScalar at h
+  cases s with
+  | nil => cases h
+  | cons c rest =>
+    simp only [] at h
+    split at h
+    · cases hr : readString (rest.length + 1) rest with
+      | none => simp [hr] at h
+      | some x =>
+        obtain ⟨d, raw, r'⟩ := x
+        simp only [hr, Option.some.injEq, Prod.mk.injEq] at h
+        obtain ⟨_, rfl⟩ := h
+        obtain ⟨e, _⟩ := readString_eq _ _ _ _ _ hr
+        rw [e]; simp only [List.length_cons, List.length_append]; omega
+    · have lit : ∀ (p : Bytes) (tk : Tok),
+          (stripPrefix p rest).map (fun r => (tk, r)) = some (t, r) → r.length < (c :: rest).length := by
+        intro p tk hh
+        cases hp : stripPrefix p rest with
+        | none => simp [hp] at hh
+        | some r' =>
+          simp only [hp, Option.map_some, Option.some.injEq, Prod.mk.injEq] at hh
+          obtain ⟨_, rfl⟩ := hh
+          rw [stripPrefix_eq p rest r' hp]
+          simp only [List.length_cons, List.length_append]; omega
+      split at h
+      · exact lit _ _ h
       · split at h
-        · -- backslash
-          cases rest with
-          | nil => simp at h
-          | cons e rest2 =>
-            simp only [] at h
-            have simple : ∀ (out : UInt8),
-                (match readString F rest2 with
-                  | some (d, raw, r) => some (out :: d, c :: e :: raw, r)
-                  | none => none) = some (d, raw, r) → c :: e :: rest2 = raw ++ r ∧ raw ≠ [] := by
-              intro out hh
-              cases hr : readString F rest2 with
-              | none => simp [hr] at hh
-              | some x =>
-                obtain ⟨d', raw', r'⟩ := x
-                simp only [hr, Option.some.injEq, Prod.mk.injEq] at hh
-                obtain ⟨_, rfl, rfl⟩ := hh
-                obtain ⟨h1, _⟩ := ih rest2 d' raw' r' hr
-                exact ⟨by rw [h1]; rfl, by simp⟩
-            repeat' (split at h; exact simple _ h)
-            split at h
-            · -- \u
-              cases hh4 : hex4 rest2 with
-              | none => simp [hh4] at h
-              | some x =>
-                obtain ⟨rr, rest3⟩ := x
-                obtain ⟨e4, l4⟩ := hex4_eq rest2 rr rest3 hh4
-                simp only [hh4] at h
-                split at h
-                · next dec rest4 hpair =>
-                  -- valid surrogate pair: `getu4 rest3` consumed six bytes
-                  have hg : ∃ rr1, getu4 rest3 = some (rr1, rest4) := by
-                    split at hpair
-                    · cases hg' : getu4 rest3 with
-                      | none => simp [hg'] at hpair
-                      | some y =>
-                        obtain ⟨rr1, r4⟩ := y
-                        simp only [hg'] at hpair
-                        split at hpair
-                        · simp only [Option.some.injEq, Prod.mk.injEq] at hpair
-                          exact ⟨rr1, by rw [hpair.2]⟩
-                        · cases hpair
-                    · cases hpair
-                  obtain ⟨rr1, hg'⟩ := hg
-                  obtain ⟨e6, _⟩ := getu4_eq rest3 rr1 rest4 hg'
-                  cases hr : readString F rest4 with
-                  | none => simp [hr] at h
-                  | some x =>
-                    obtain ⟨d', raw', r'⟩ := x
-                    simp only [hr, Option.some.injEq, Prod.mk.injEq] at h
-                    obtain ⟨_, rfl, rfl⟩ := h
-                    obtain ⟨h1, _⟩ := ih rest4 d' raw' r' hr
-                    refine ⟨?_, by simp⟩
-                    simp only [List.cons_append, List.append_assoc]
-                    congr 2
-                    rw [← h1, ← e6, ← e4]
-                · cases hr : readString F rest3 with
-                  | none => simp [hr] at h
-                  | some x =>
-                    obtain ⟨d', raw', r'⟩ := x
-                    simp only [hr, Option.some.injEq, Prod.mk.injEq] at h
-                    obtain ⟨_, rfl, rfl⟩ := h
-                    obtain ⟨h1, _⟩ := ih rest3 d' raw' r' hr
-                    refine ⟨?_, by simp⟩
-                    simp only [List.cons_append, List.append_assoc]
-                    congr 2
-                    rw [← h1, ← e4]
-            · cases h
+        · exact lit _ _ h
         · split at h
-          · cases h
+          · exact lit _ _ h
           · split at h
-            · -- plain ASCII
-              cases hr : readString F rest with
-              | none => simp [hr] at h
+            · cases hn : scanNumber (c :: rest) with
+              | none => simp [hn] at h
               | some x =>
-                obtain ⟨d', raw', r'⟩ := x
-                simp only [hr, Option.some.injEq, Prod.mk.injEq] at h
-                obtain ⟨_, rfl, rfl⟩ := h
-                obtain ⟨h1, _⟩ := ih rest d' raw' r' hr
-                exact ⟨by rw [h1]; rfl, by simp⟩
-            · split at h
-              · -- invalid UTF-8 byte
-                cases hr : readString F rest with
-                | none => simp [hr] at h
-                | some x =>
-                  obtain ⟨d', raw', r'⟩ := x
-                  simp only [hr, Option.some.injEq, Prod.mk.injEq] at h
-                  obtain ⟨_, rfl, rfl⟩ := h
-                  obtain ⟨h1, _⟩ := ih rest d' raw' r' hr
-                  exact ⟨by rw [h1]; rfl, by simp⟩
-              · -- multi-byte rune
-                cases hr : readString F ((c :: rest).drop (decodeRune (c :: rest)).2) with
-                | none => simp [hr] at h
-                | some x =>
-                  obtain ⟨d', raw', r'⟩ := x
-                  simp only [hr, Option.some.injEq, Prod.mk.injEq] at h
-                  obtain ⟨_, rfl, rfl⟩ := h
-                  obtain ⟨h1, h2⟩ := ih _ d' raw' r' hr
-                  refine ⟨?_, ?_⟩
-                  · rw [List.append_assoc, ← h1, List.take_append_drop]
-                  · intro hnil
-                    have := List.append_eq_nil_iff.mp hnil
-                    exact h2 this.2
+                obtain ⟨tx, r'⟩ := x
+                simp only [hn, Option.map_some, Option.some.injEq, Prod.mk.injEq] at h
+                obtain ⟨_, rfl⟩ := h
+                obtain ⟨e, hne⟩ := scanNumber_eq _ _ _ hn
+                rw [e]
+                cases tx with
+                | nil => exact absurd rfl hne
+                | cons a b => simp only [List.length_cons, List.length_append]; omega
+            · cases h
+
+/-! ## fuel -/
+
+/-- every step that continues hands on a strictly shorter input -/
+theorem tokStep_length (st : TS) (stack : List TS) (inp : Bytes) :
+    (∀ t st' stack' rest, tokStep st stack inp = .emit t st' stack' rest → rest.length < inp.length) ∧
+    (∀ st' stack' rest, tokStep st stack inp = .skip st' stack' rest → rest.length < inp.length) := by
+  have hws := skipWs_length inp
+  unfold tokStep
+  cases hsk : skipWs inp with
+  | nil => simp
+  | cons c rest =>
+    rw [hsk] at hws
+    simp only [List.length_cons] at hws
+    have hsc : ∀ t r, scanScalar (c :: rest) = some (t, r) → r.length < inp.length := by
+      intro t r h
+      have := scanScalar_length _ _ _ h
+      simp only [List.length_cons] at this; omega
+    simp only []
+    constructor
+    · intro t st' stack' r h
+      repeat' split at h
+      all_goals first
+        | (cases h; omega)
+        | (cases h; exact hsc _ _ (by assumption))
+        | (cases h)
+    · intro st' stack' r h
+      repeat' split at h
+      all_goals first
+        | (cases h; omega)
+        | (cases h)
+
+/-- with more fuel than input bytes the result does not depend on the fuel and never contains the
+exhaustion marker -/
+theorem tokLoop_fuel : ∀ (f f' : Nat) (st : TS) (stack : List TS) (inp : Bytes),
+    inp.length < f → inp.length < f' →
+    tokLoop f st stack inp = tokLoop f' st stack inp ∧ Item.fuel ∉ tokLoop f st stack inp := by
+  intro f
+  induction f with
+  | zero => intro f' st stack inp h; omega
+  | succ f ih =>
+    intro f' st stack inp h h'
+    cases f' with
+    | zero => omega
+    | succ f' =>
+      have hlen := tokStep_length st stack inp
+      simp only [tokLoop]
+      cases hs : tokStep st stack inp with
+      | eof => simp
+      | bad c => simp
+      | emit t st' stack' rest =>
+        have := hlen.1 t st' stack' rest hs
+        obtain ⟨h1, h2⟩ := ih f' st' stack' rest (by omega) (by omega)
+        simp only []
+        exact ⟨by rw [h1], by simp [h2]⟩
+      | skip st' stack' rest =>
+        have := hlen.2 st' stack' rest hs
+        exact ih f' st' stack' rest (by omega) (by omega)
+
+/-- **the tokenizer never runs out of fuel**: `Item.fuel` does not occur in `tokenize bs` -/
+theorem tokenize_no_fuel (bs : Bytes) : Item.fuel ∉ tokenize bs :=
+  (tokLoop_fuel (bs.length + 1) (bs.length + 1) .top [] bs (by omega) (by omega)).2
 
 end J5V.Json
